@@ -503,8 +503,11 @@ class Factoriser:
         self.ctx = ctx
         self.slots = list(slots)
         self.bv = BitVec(ctx.pdb, known_zero={s_: kz for s_ in slots})
-        self.found = {"M": 0, "F": 0, "P": 0}
+        self.found = {"M": 0, "F": 0, "P": 0, "U": 0}
         self.P_factors = None
+        self.unknown = {}      # id(node) -> (atom name, node, truth table over suit assignments)
+        self._ftab = None
+        self._assign = None
 
     def m_pattern(self, width):
         return [b_or([("b", s_, 16 + i) for s_ in self.slots]) if i < 13 else 0 for i in range(width)]
@@ -512,12 +515,37 @@ class Factoriser:
     def f_bit(self):
         return b_or([b_and([("b", s_, k) for s_ in self.slots]) for k in (12, 13, 14, 15)])
 
+    def suit_assignments(self):
+        if self._assign is None:
+            from itertools import product as _prod
+            self._assign = list(_prod((0, 1, 2, 4, 8), repeat=len(self.slots)))
+        return self._assign
+
+    def flush_table(self):
+        """`all slots share a suit bit` over every assignment of one-hot-or-zero suit nibbles"""
+        if self._ftab is None:
+            tab = []
+            for a in self.suit_assignments():
+                x = 0xF
+                for v in a:
+                    x &= v
+                tab.append(1 if x else 0)
+            self._ftab = tuple(tab)
+        return self._ftab
+
+    def suit_table(self, nd):
+        tab = []
+        for a in self.suit_assignments():
+            env = {s_: v << 12 for s_, v in zip(self.slots, a)}
+            tab.append(1 if cval(evaluate(self.ctx.pdb, nd, env)) else 0)
+        return tuple(tab)
+
     def prime_pattern(self, s_, width):
         return [("b", s_, i) if i < 6 else 0 for i in range(width)]
 
     def classify(self, nd):
         k = nd[0]
-        if k not in ("bin", "cast", "un"):
+        if k not in ("bin", "cast", "un", "ite"):
             return None
         ty = ty_of(nd)
         if ty not in INT_BITS:
@@ -533,9 +561,31 @@ class Factoriser:
                 return "F"
             if v[0] == b_not(fb):
                 return "NF"
+            # a predicate that reads nothing but suit bits: decide what it is by its truth table over all
+            # assignments of one-hot-or-zero suit nibbles (card-or-blank words have no other suit patterns)
+            deps = b_deps(v[0])
+            if deps and all(nm in self.slots and 12 <= bit <= 15 for nm, bit in deps) and len(self.slots) <= 5:
+                try:
+                    tt = self.suit_table(nd)
+                except Uncertified:
+                    return None
+                ft = self.flush_table()
+                if tt == ft:
+                    return "F"
+                if tt == tuple(1 - x for x in ft):
+                    return "NF"
+                if id(nd) not in self.unknown:
+                    self.unknown[id(nd)] = ("U%d" % len(self.unknown), nd, tt)
+                return "U"
             return None
         if w >= 13 and v == self.m_pattern(w):
             return "M"
+        if k == "bin" and nd[1] == "BitOr" and w >= 13:
+            # OR of per-slot terms, each equal to its slot's rank bit on every card-or-blank word
+            terms = []
+            self.flat_op(nd, "BitOr", terms)
+            if self.per_slot_terms(terms, lambda wd: (wd >> 16) & 0x1FFF):
+                return "M"
         if k == "bin" and nd[1] == "Mul" or (k == "cast" and nd[1][0] == "bin" and nd[1][1] == "Mul"):
             inner = nd if k == "bin" else nd[1]
             facs = []
@@ -551,12 +601,51 @@ class Factoriser:
                     if fv == self.prime_pattern(s_, len(fv)):
                         hit = s_
                 if hit is None:
-                    return None
+                    # a factor computed some other way (e.g. rank -> prime lookup): one slot, prime field on all 53 words
+                    one = self.single_slot_term(f, lambda wd: wd & 0x3F)
+                    if one is None:
+                        return None
+                    hit = one
                 used.append(hit)
             if sorted(used) == sorted(self.slots):
                 self.P_factors = used
                 return "P"
         return None
+
+    def flat_op(self, x, op, out):
+        if x[0] == "bin" and x[1] == op:
+            self.flat_op(x[2], op, out)
+            self.flat_op(x[3], op, out)
+        elif x[0] == "cast" and x[1][0] == "bin" and x[1][1] == op and INT_BITS.get(ty_of(x), 0) >= INT_BITS.get(ty_of(x[1]), 0):
+            self.flat_op(x[1], op, out)
+        elif x[0] == "c" and x[1] == 0 and op == "BitOr":
+            pass
+        else:
+            out.append(x)
+
+    def single_slot_term(self, term, expect):
+        """term reads exactly one slot and equals expect(word) on each of the 53 card-or-blank words -> slot name"""
+        ats = [a for a in atoms_of(term)]
+        if len(ats) != 1 or ats[0] not in self.slots:
+            return None
+        if not hasattr(self, "_words"):
+            self._words = self.ctx.words53()
+        for wd in self._words:
+            try:
+                if cval(evaluate(self.ctx.pdb, term, {ats[0]: wd})) != expect(wd):
+                    return None
+            except (Uncertified, IndexError):
+                return None
+        return ats[0]
+
+    def per_slot_terms(self, terms, expect):
+        used = []
+        for t in terms:
+            one = self.single_slot_term(t, expect)
+            if one is None:
+                return False
+            used.append(one)
+        return sorted(set(used)) == sorted(self.slots)
 
     def flat_mul(self, x, out):
         if x[0] == "bin" and x[1] == "Mul":
@@ -576,6 +665,8 @@ class Factoriser:
                 return None
             self.found[c if c != "NF" else "F"] += 1
             ty = ty_of(nd)
+            if c == "U":
+                return atom(self.unknown[id(nd)][0], "bool")
             if c == "M":
                 return mk_cast(atom("M", "u32"), ty) if ty != "u32" else atom("M", "u32")
             if c == "F":
@@ -595,8 +686,10 @@ def five_summary(ctx, pdb=None):
     return key, h, sm
 
 
-def premise_factor(ctx, rule="F"):
-    """-> (residual value DAG over M/F/P, residual obligations, key) or None"""
+def premise_factor(ctx, rule="F", strict_flush=True):
+    """-> (residual value DAG over M/F/P, residual obligations, key) or None.
+    strict_flush: a suit predicate that is not `all five share a suit` is a violation (exact-value properties);
+    otherwise it stays in the residual as an atom U<k> with its truth table (panic-freedom, suit-blindness)."""
     rep, pdb = ctx.rep, ctx.pdb
     key, h, sm = five_summary(ctx)
     if sm.ret[0] != "agg" or len(sm.ret[2]) != 2:
@@ -607,6 +700,15 @@ def premise_factor(ctx, rule="F"):
     fz = Factoriser(ctx, slots, kz)
     resid = fz.rewrite(value)
     left = [a for a in atoms_of(resid) if a in slots]
+    if strict_flush:
+        for (nm, nd, tt) in fz.unknown.values():
+            ft = fz.flush_table()
+            diffs = [i for i in range(len(tt)) if tt[i] != ft[i]]
+            real = [i for i in diffs if 0 not in fz.suit_assignments()[i]]
+            ix = (real or diffs)[0]
+            a = fz.suit_assignments()[ix]
+            names = {0: "blank", 1: "clubs", 2: "diamonds", 4: "hearts", 8: "spades"}
+            rep.ob(rule + ".flush-test", nm, False, "the evaluation's suit test is not `all five cards share a suit`: with suits %s it is %s" % ([names[v] for v in a], bool(tt[ix])), pdb.where(key))
     rep.ob(rule + ".value-factors", "no other slot use", not left,
            "the five-card value reads slot(s) %s outside the rank-bit OR, the all-same-suit test and the prime product (e.g. a slot missing from one of them, or used twice)" % left, pdb.where(key))
     rep.ob(rule + ".value-factors", "rank mask", fz.found["M"] > 0 or not left, "no sub-expression is the OR of the five rank-bit fields", pdb.where(key), nontrivial=False)
@@ -618,7 +720,7 @@ def premise_factor(ctx, rule="F"):
             ub = 1
             okb = True
             for operand in o.detail or []:
-                u = upper_bound(fz.bv, operand)
+                u = upper_bound(fz.bv, operand, fz)
                 if u is None:
                     okb = False
                 else:
@@ -637,18 +739,29 @@ def premise_factor(ctx, rule="F"):
         pc2 = [fz.rewrite(c) for c in o.pc]
         robs.append((o, c2, pc2))
     rep.sample({"rule": rule, "recognised": dict(fz.found), "residual_atoms": atoms_of(resid), "tables": tables_of(resid)})
-    return dict(key=key, value=value, witness=witness, hand=h, resid=resid, robs=robs, sm=sm, fz=fz, slots_left=left)
+    return dict(key=key, value=value, witness=witness, hand=h, resid=resid, robs=robs, sm=sm, fz=fz, slots_left=left,
+                upreds=list(fz.unknown.values()))
 
 
-def upper_bound(bv, node):
-    """largest value consistent with the known-zero bits (None when a bit is unknown-typed)"""
+def upper_bound(bv, node, fz=None):
+    """largest value consistent with the known-zero bits (None when a bit is unknown-typed); a term that reads a
+    single slot is bounded by its maximum over the 53 card-or-blank words"""
+    if node[0] == "c" and isinstance(node[1], int):
+        return node[1]
     if node[0] == "bin" and node[1] in ("Mul", "Add"):
-        a, b = upper_bound(bv, node[2]), upper_bound(bv, node[3])
+        a, b = upper_bound(bv, node[2], fz), upper_bound(bv, node[3], fz)
         if a is None or b is None:
             return None
         return a * b if node[1] == "Mul" else a + b
     if node[0] == "cast" and ty_of(node) in INT_BITS and ty_of(node[1]) in INT_BITS and INT_BITS[ty_of(node)] >= INT_BITS[ty_of(node[1])]:
-        return upper_bound(bv, node[1])
+        return upper_bound(bv, node[1], fz)
+    if fz is not None:
+        ats = atoms_of(node)
+        if len(ats) == 1 and ats[0] in fz.slots:
+            try:
+                return max(cval(evaluate(fz.ctx.pdb, node, {ats[0]: wd})) for wd in fz.ctx.words53())
+            except (Uncertified, IndexError, TypeError):
+                pass
     try:
         v = bv.bv(node)
     except Uncertified:
@@ -799,15 +912,21 @@ def discharge_residual_obligations(ctx, fac, rule, max_ranks, PR, extra_env=None
             dom = [(m, fl, pv) for m in masks for fl in (0, 1) for pv in pdom_small]
         else:
             dom = [(m, fl, 0) for m in masks for fl in (0, 1)]
+        unames = sorted(a for a in ats if a.startswith("U"))
+        ucombos = [dict(zip(unames, bits)) for bits in __import__("itertools").product((0, 1), repeat=len(unames))]
         for (m, fl, pv) in dom:
-            env = {"M": m, "F": fl, "P": pv, "$contract:find_in_products": h_}
-            try:
-                if all(cval(evaluate(pdb, c, env)) for c in pc2):
-                    if not cval(evaluate(pdb, c2, env)):
-                        bad = (m, fl, pv)
-                        break
-            except IndexError:
-                bad = (m, fl, pv)
+            for uc in ucombos:
+                env = {"M": m, "F": fl, "P": pv, "$contract:find_in_products": h_}
+                env.update(uc)
+                try:
+                    if all(cval(evaluate(pdb, c, env)) for c in pc2):
+                        if not cval(evaluate(pdb, c2, env)):
+                            bad = (m, fl, pv)
+                            break
+                except IndexError:
+                    bad = (m, fl, pv)
+                    break
+            if bad:
                 break
         rep.evals(len(dom))
         rep.ob(rule, label, bad is None, "%s in %s can fail for rank mask %#x, flush=%s, prime product %s" % (o.kind, short(o.fn), bad[0] if bad else 0, bad[1] if bad else 0, bad[2] if bad else 0), "%s line %s" % (pdb.where(o.fn), o.line))
@@ -1624,7 +1743,7 @@ def check_C05(ctx):
     ctx.guard("C05.slot-abstraction", slotfacts)
     tabs = ctx.guard("T", premise_tables, ctx, "T", "shape")
     res = premise_search(ctx, "S", want_gap=True)
-    fac = ctx.guard("F", premise_factor, ctx)
+    fac = ctx.guard("F", premise_factor, ctx, "F", False)
     PR = tabs[2] if tabs else None
     if fac:
         n = discharge_residual_obligations(ctx, fac, "C05.panic-site.five", max_ranks=5, PR=PR)
@@ -1635,22 +1754,24 @@ def check_C05(ctx):
                 return
             h = fip_handler(PR)
             bad = None
+            # suit predicates other than the flush test: the values they can take when some slot is blank
+            ucombos = [{}]
+            for (nm, nd, tt) in fac.get("upreds", []):
+                poss = sorted({tt[i] for i, a in enumerate(fac["fz"].suit_assignments()) if 0 in a})
+                ucombos = [dict(u, **{nm: v}) for u in ucombos for v in poss]
             for m in masks_upto(4):
-                try:
-                    got = cval(ctx.fold(fac["resid"], {"M": m, "F": 0, "P": 0, "$contract:find_in_products": h}))
-                except IndexError as e:
-                    got = "panic(%s)" % e
-                if got != 0:
-                    bad = bad or (m, got)
+                for uc in ucombos:
+                    env = {"M": m, "F": 0, "P": 0, "$contract:find_in_products": h}
+                    env.update(uc)
+                    try:
+                        got = cval(ctx.fold(fac["resid"], env))
+                    except IndexError as e:
+                        got = "panic(%s)" % e
+                    if got != 0:
+                        bad = bad or (m, got)
             rep.ob("C05.blank-five-is-zero", "1093 rank masks", bad is None, "a five-slot hand holding a blank with rank mask %#x gets value %s instead of 0" % (bad or (0, 0)), pdb.where(fac["key"]))
-            # flush flag is false as soon as one slot is zero
-            fz = fac["fz"]
-            fb = BitVec(pdb, atom_bits={"s0": [0] * 32}).bv
-            kf = pdb.inherent(FIVE, "is_flush")
-            r = ctx.summ(kf, [("r", ctx.hand(FIVE, 5))]).ret
-            for z in range(5):
-                bits = BitVec(pdb, atom_bits={"s%d" % z: [0] * 32}).bv(r)
-                rep.ob("C05.blank-never-flush", "blank in slot %d" % z, bits[0] == 0, "is_flush can be true with a blank in slot %d" % z, pdb.where(kf))
+            # (the recognised flush test is false as soon as one slot is blank: a zero nibble clears the AND — this
+            # is how Factoriser.flush_table is defined; other suit predicates were enumerated above)
             kn = pdb.inherent("hand_rank::HandRank", "determine_name")
             nm = ctx.summ(kn, [("r", C(0, "u16"))]).ret
             rep.ob("C05.zero-is-invalid", "name(0)", enum_name(pdb, nm) == "Invalid", "the rank of value 0 is named %s" % enum_name(pdb, nm), pdb.where(kn))
@@ -1760,7 +1881,7 @@ def check_C08(ctx):
 
     # value invariance: suits reach the five-card value only through the all-same-suit test, which treats the four
     # suit bits alike; six/seven select by slot index and minimise over values
-    fac = ctx.guard("F", premise_factor, ctx)
+    fac = ctx.guard("F", premise_factor, ctx, "F", False)
     if fac:
         fz = fac["fz"]
         fb = fz.f_bit()
@@ -1770,7 +1891,24 @@ def check_C08(ctx):
             mp = dict(zip((12, 13, 14, 15), perm))
             img = b_or([b_and([("b", s_, mp[k]) for s_ in fz.slots]) for k in (12, 13, 14, 15)])
             sym = sym and img == fb
-        rep.ob("C08.suit-blind", "24 relabellings", sym and not fac["slots_left"] and fz.found["F"] > 0, "the five-card value depends on suits other than through a test that is symmetric in the four suit bits", pdb.where(fac["key"]))
+        # any other suit predicate must also be invariant under every relabelling of the four suits
+        assigns = fz.suit_assignments()
+        index = {a: i for i, a in enumerate(assigns)}
+        badp = None
+        for (nm, nd, tt) in fac.get("upreds", []):
+            for perm in itertools.permutations((1, 2, 4, 8)):
+                mp = dict(zip((1, 2, 4, 8), perm))
+                mp[0] = 0
+                for i, a in enumerate(assigns):
+                    if 0 in a:
+                        continue
+                    if tt[index[tuple(mp[v] for v in a)]] != tt[i]:
+                        badp = badp or (nm, a, perm)
+                        break
+                if badp:
+                    break
+        rep.ob("C08.suit-blind", "24 relabellings", sym and not fac["slots_left"] and (fz.found["F"] + fz.found["U"]) > 0 and badp is None,
+               "the five-card value depends on suits other than through tests that are invariant under relabelling the four suits%s" % ((": suits %s vs relabelling %s" % (badp[1], badp[2])) if badp else ""), pdb.where(fac["key"]))
     ctx.guard("C08.suit-blind-selection", suit_blind_selection, ctx)
 
 
